@@ -7,7 +7,17 @@ from mc.canon import canon, norm, short
 UTC = datetime.timezone.utc
 
 
+_P = None
+
+
 def pamqp():
+    global _P
+    if _P is None:
+        _P = _load()
+    return _P
+
+
+def _load():
     import pamqp.frame      # noqa
     import pamqp.commands   # noqa
     import pamqp.header     # noqa
